@@ -49,17 +49,13 @@ Fixpoint consecutive (l : list nat) : bool :=
   | _ => true
   end.
 
+(* inside the requested window: strictly after the element `after` designates, strictly before the one `before`
+   designates - whatever their relative position (the checker used to follow the pinned template here, which looked
+   for `before` only in what was left after `after`: a loosened check, corrected) *)
 Definition in_window (n : nat) (i : input) (x : nat) : bool :=
   Nat.ltb x n &&
   match cur_off n (i_after i) with Some a => Nat.ltb a x | None => true end &&
-  match cur_off n (i_before i) with
-  | Some b =>
-      (* the template searches "before" only in what is left after "after" *)
-      match cur_off n (i_after i) with
-      | Some a => if Nat.ltb a b then Nat.ltb x b else true
-      | None => Nat.ltb x b
-      end
-  | None => true end.
+  match cur_off n (i_before i) with Some b => Nat.ltb x b | None => true end.
 
 Definition C20_ok (c : case) : bool :=
   let n := c_n c in let i := c_in c in
